@@ -20,7 +20,7 @@ BUDGET = {"quick": 9000, "thorough": 400000}
 TIME_CAP = {"quick": 240, "thorough": 1500}
 ANCHORS = ["Rect._validate_rect", "Rect.segments", "_RoundShape.segments", "SimpleLine.segments", "_Polyshape.segments", "_Polyshape._init_points",
            "Shape.d", "Shape.__eq__", "Path.__init__", "Rect.reify", "_RoundShape.reify", "SimpleLine.reify", "_Polyshape.reify"]
-REQUIRED_MONITORS = ["equivalent-path", "transformed-decomposition", "shape-eq-path", "path-from-d", "bbox-agreement", "length-agreement", "degenerate"]
+REQUIRED_MONITORS = ["equivalent-path", "transformed-decomposition", "shape-eq-path", "path-from-d", "bbox-agreement", "length-agreement", "length-after-history", "degenerate"]
 
 T5 = [0.0, 0.25, 0.5, 0.75, 1.0]
 KIND = {"M": "Move", "L": "Line", "Z": "Close", "A": "Arc"}
@@ -380,6 +380,21 @@ def run_case(S, case, ctx):
         return
     if abs(l1 - l2) > 1e-9 * max(l1, l2, 1e-300) + 1e-12 * S_:
         ctx.violation("length-disagree/%s" % feat, "%s: shape.length()=%r, Path(shape).length()=%r" % (what, l1, l2), monitor="length-agreement")
+        return
+    # the same agreement on an object with a history: measured, then transformed in place (not an isometry), reified, measured again
+    ctx.mon("length-after-history")
+    try:
+        import copy as _copy
+        sh2 = _copy.copy(shape)
+        sh2.length(error=1e-5)
+        sh2 *= S.Matrix(2.0, 0.0, 0.0, 0.5, 3.0, -1.0)
+        sh2.reify()
+        l3, l4 = sh2.length(error=1e-5), S.Path(sh2).length(error=1e-5)
+    except Exception as e:
+        ctx.violation("length-raises/%s/%s/after-history" % (type(e).__name__, kind), "%s measured, scaled in place, reified, measured: %r" % (what, e), monitor="length-after-history")
+        return
+    if abs(l3 - l4) > 1e-9 * max(l3, l4, 1e-300) + 1e-12 * 2 * S_:
+        ctx.violation("length-disagree/after-history/%s" % feat, "%s; length(); *= matrix(2,0,0,.5,3,-1); reify(): shape.length()=%r, Path(shape).length()=%r" % (what, l3, l4), monitor="length-after-history")
 
 
 def _numbers(g):
